@@ -280,9 +280,13 @@ subscribe_contract = Contract(
     exc_ensures={
         # a refusal leaves the other subscriptions of the connection intact and puts nothing on the queue
         "StorageError": [("refusal-leaves-others-intact", "implies(k0 != sub_id, (k0 in %s) == (k0 in %s) and implies(k0 in %s, %s[k0] == %s[k0]))" % (NEW_SUBS, OLD_SUBS, OLD_SUBS, NEW_SUBS, OLD_SUBS)),
-                         ("refusal-puts-nothing", "ghost('n_eose_put') == 0 and ghost('n_event_put') == 0")],
+                         ("refusal-puts-nothing", "ghost('n_eose_put') == 0 and ghost('n_event_put') == 0"),
+                         ("refused-req-is-not-registered", "not (sub_id in %s)" % NEW_SUBS)],
         "AuthenticationError": [("refusal-leaves-others-intact", "implies(k0 != sub_id, (k0 in %s) == (k0 in %s))" % (NEW_SUBS, OLD_SUBS)),
-                                ("refusal-starts-nothing", "not (ghost('created_sub') in ghost('started'))")],
+                                ("refusal-starts-nothing", "not (ghost('created_sub') in ghost('started'))"),
+                                # C14/C05: a REQ refused for lack of the query role must not stay in the registry, where
+                                # notify_all_connected would push live events to it
+                                ("refused-req-is-not-registered", "not (sub_id in %s)" % NEW_SUBS)],
     },
 )
 subscribe_contract.ghost_params = ("c0", "k0")
@@ -294,7 +298,8 @@ subscribe = REG.unit(Unit(
 subscribe.param_defaults = {"queue": lambda sx, st: Conc(QueueModel()), "kwargs": lambda sx, st: Conc({})}
 subscribe.ghost_havoc = lambda sx, body, st: None  # the filter-cleaning loop touches no ghost state
 subscribe.local_types = {"cleaned_filters": V.List(V.Opaque("NostrQuery"))}
-subscribe.obligation_props = [("limit-respected", ["C13"]), ("started-only-if-authorized", ["C14"]), ("exc:", ["C19", "C13"])]
+subscribe.obligation_props = [("limit-respected", ["C13"]), ("started-only-if-authorized", ["C14"]), ("refused-req-is-not-registered", ["C14", "C05", "C13"]),
+                              ("exc:", ["C19", "C13"])]
 
 
 # ---- unsubscribe -------------------------------------------------------------------------------
